@@ -46,6 +46,9 @@ def _case(draw, tier):
         "mesh": mesh,
         "src": src,
         "radius": draw(sampled_from([1.0, 6371229.0])),
+        # topology sources only: node_lon / node_lat stored in single precision (judged on the positions the stored
+        # values denote; centres are then derived from single-precision Cartesian coordinates, good to ~1e-7 rad)
+        "coord_dtype": draw(sampled_from(["float64", "float64", "float64", "float32"])),
         "edge_seed": draw(st.integers(0, 999)),
         "withhold": sorted(draw(st.sets(sampled_from(["dvEdge", "dcEdge"])))) if src == "mpas" else [],
         "centred": centred,
@@ -80,13 +83,21 @@ def run_case(case, ctx):
     mesh = case["mesh"]
     fails = []
     winfo = None
+    f32 = case["src"] != "mpas" and case.get("coord_dtype") == "float32" and mesh.get("family") != "tiny-patch"
+    FD_TOL = 1e-9
+    if f32:
+        mesh = dict(mesh, nodes=[[float(np.float32(a)), float(np.float32(b))] for a, b in mesh["nodes"]])
+        FD_TOL = 1e-5  # centres come from single-precision Cartesian coordinates (large faces: cancellation in the mean)
     if case["src"] == "mpas":
         ds, winfo = writers.mpas_dataset(mesh, radius=case["radius"], edge_perm_seed=case["edge_seed"], withhold=case["withhold"])
         g = ux.open_grid(ds)
     else:
         # topology arrays, in half of the cases with Cartesian node coordinates on a sphere of the drawn radius
-        g = build.grid_from_mesh(mesh, **(build.cartesian_kw(mesh, case["radius"]) if case["radius"] != 1.0 else {}))
-    site = case["src"] + (":cartesian-radius" if case["src"] != "mpas" and case["radius"] != 1.0 else "")
+        if f32:
+            g = build.grid_from_mesh(mesh, coord_dtype="float32")
+        else:
+            g = build.grid_from_mesh(mesh, **(build.cartesian_kw(mesh, case["radius"]) if case["radius"] != 1.0 else {}))
+    site = case["src"] + (":float32-coordinates" if f32 else (":cartesian-radius" if case["src"] != "mpas" and case["radius"] != 1.0 else ""))
 
     def bad(oracle, kind, detail, s=None):
         fails.append(Failure(oracle, s or site, kind, detail))
@@ -138,7 +149,7 @@ def run_case(case, ctx):
             bad("edge_face_distance", "supplied-not-carried", f"{efd[:3]} vs dcEdge {winfo['dc'][:3]}", "mpas:supplied")
     else:
         unit = None
-        if np.allclose(efd, ref_fd, rtol=1e-9, atol=1e-9):
+        if np.allclose(efd, ref_fd, rtol=1e-9, atol=FD_TOL):
             unit = "rad"
         elif np.allclose(efd, np.degrees(ref_fd), rtol=1e-9, atol=1e-7):
             unit = "deg"
@@ -222,7 +233,7 @@ def run_case(case, ctx):
             exp[..., interior] = exp_diff[..., interior] / centre_dist[interior]
         # distances are asserted to 1e-9 rad absolute; a gradient inherits the relative error of its distance
         with np.errstate(divide="ignore", invalid="ignore"):
-            rel = np.where(interior, np.maximum(max(rtol, 1e-9), 2e-9 / np.where(centre_dist > 0, centre_dist, 1.0)), max(rtol, 1e-9))
+            rel = np.where(interior, np.maximum(max(rtol, 1e-9), 2 * FD_TOL / np.where(centre_dist > 0, centre_dist, 1.0)), max(rtol, 1e-9))
         okm = np.abs(got - exp) <= rel * np.abs(exp) + 1e-12
         if not np.all(okm):
             i = np.argwhere(~okm)[0]
